@@ -30,8 +30,20 @@ func TestVerif_C04_ConcurrentCallers(t *testing.T) {
 		scalars := make([]*big.Int, nMsg)
 		for i := range msgs {
 			msgs[i] = rapid.SliceOfN(rapid.Byte(), 0, 80).Draw(t, "message")
+			if i%4 == 0 {
+				// long messages too (relay entries are short, but the statement says
+				// any byte string): a drawn head repeated to 1..32 KiB
+				n := rapid.SampledFrom([]int{1 << 10, 4 << 10, 32 << 10}).Draw(t, "longLen")
+				long := make([]byte, n)
+				for j := range long {
+					long[j] = byte(j>>8) ^ byte(i)
+				}
+				copy(long, msgs[i])
+				msgs[i] = long
+			}
 			scalars[i] = new(big.Int).SetUint64(rapid.Uint64Range(1, 1<<62).Draw(t, "scalar"))
 		}
+		hashRounds := rapid.IntRange(4, 12).Draw(t, "hashRounds")
 		// sequential reference (same functions, one caller at a time)
 		refHash := make([][]byte, nMsg)
 		refG1 := make([][]byte, nMsg)
@@ -63,10 +75,23 @@ func TestVerif_C04_ConcurrentCallers(t *testing.T) {
 					}
 				}()
 				start.Wait()
-				for k := 0; k < nMsg; k++ {
+				// phase 1: nothing but hashing, every goroutine through all messages
+				// several times in its own order, so that calls really overlap
+				for r := 0; r < hashRounds; r++ {
+					for k := 0; k < nMsg; k++ {
+						i := (k*(2*r+1) + w*3) % nMsg
+						p := G1HashToPoint(msgs[i])
+						if got := p.Marshal(); !bytes.Equal(got, refHash[i]) {
+							report("G1HashToPoint of message %d (%d bytes, %.8x..) called concurrently gave %x, sequentially %x", i, len(msgs[i]), msgs[i], got[:8], refHash[i][:8])
+						}
+						p.Neg(p) // the caller owns its point
+					}
+				}
+				// phase 2: hashing interleaved with the (slow) codecs
+				for k := 0; k < nMsg && k < 6; k++ {
 					i := (k*7 + w*3) % nMsg
 					if got := G1HashToPoint(msgs[i]).Marshal(); !bytes.Equal(got, refHash[i]) {
-						report("G1HashToPoint(%x) called concurrently gave %x, sequentially %x", msgs[i], got[:8], refHash[i][:8])
+						report("G1HashToPoint of message %d (%d bytes) called concurrently gave %x, sequentially %x", i, len(msgs[i]), got[:8], refHash[i][:8])
 					}
 					p1, err := DecompressToG1(refG1[i])
 					if err != nil || !bytes.Equal(G1Point{p1}.Compress(), refG1[i]) {
@@ -84,6 +109,10 @@ func TestVerif_C04_ConcurrentCallers(t *testing.T) {
 		if len(problems) > 0 {
 			t.Fatalf("%d goroutines, %d messages: %v", workers, nMsg, problems)
 		}
-		st.Case(true, fmt.Sprintf("goroutines=%d messages=%d first=%x", workers, nMsg, msgs[0]), fmt.Sprintf("goroutines:%d", workers))
+		first := msgs[0]
+		if len(first) > 16 {
+			first = first[:16]
+		}
+		st.Case(true, fmt.Sprintf("goroutines=%d messages=%d hashRounds=%d first=%x", workers, nMsg, hashRounds, first), fmt.Sprintf("goroutines:%d", workers))
 	})
 }
